@@ -377,6 +377,29 @@ func propC10(w *World, r *Report) {
 			}
 		}
 		r.Check(removed, "D5", "every file matched by the clean-up glob "+g.pattern+" is removed", g.pos, "")
+		// ... and a file that cannot be removed stops the clean-up with that error (start-up is aborted, D4): debris is
+		// never silently left behind
+		for _, fnx := range []*ssa.Function{worker} {
+			scan := []*ssa.Function{fnx}
+			for _, b := range fnx.Blocks {
+				for _, in := range b.Instrs {
+					if c, ok := in.(*ssa.Call); ok {
+						if pi := removesAllOfParam(w, c.Call.StaticCallee()); pi >= 0 {
+							scan = append(scan, c.Call.StaticCallee())
+						}
+					}
+				}
+			}
+			for _, f := range scan {
+				for _, b := range f.Blocks {
+					for _, in := range b.Instrs {
+						if c, ok := in.(*ssa.Call); ok && calleeName(c) == "os.Remove" {
+							r.Check(callErrorReturned(c), "D5", "a failing removal in the clean-up is returned as its error", w.InstrPos(c), "")
+						}
+					}
+				}
+			}
+		}
 	}
 	var rels []string
 	for d := range dirRel {
